@@ -8,10 +8,20 @@ REPO = os.environ.get("CUTPLACE_REPO", "/repo")
 ALSO = {"C20w17": ["C07"], "C09w17": ["C01"], "C04w16": ["C15"], "C09w16": ["C02"], "C02w15": ["C01"], "C04w14": ["C15"], "C20w14": ["C07"], "C06w14": ["C02"], "C12w12": ["C14"], "C13w12": ["C10"], "C09w11": ["C17"], "C20w11": ["C03"], "C05w9": ["C08"], "C03w9": ["C07"], "C20w9": ["C14"], "C09w9": ["C01"], "C09w7": ["C20"], "C03w8": ["C20"], "C20w8": ["C03"], "C18w7": ["C07"], "C18w8": ["C07"], "C03w6": ["C20"], "C20w6": ["C03"], "C04w6": ["C06"], "C06w6": ["C04"], "C15w6": ["C17"], "C17w6": ["C15"], "C02": ["C03"], "C17": ["C16"], "C10b": ["C15"], "C05": ["C08", "C20"], "C20": ["C07"], "C08": ["C05"], "C04": ["C06"], "C03": ["C02"]}
 def sh(cmd, **kw):
     return subprocess.run(cmd, shell=True, stdout=subprocess.PIPE, stderr=subprocess.STDOUT, text=True, **kw)
+if REPO != "/repo" and not os.path.isdir(REPO):
+    # a scratch worktree of /repo (removed again by the caller: git -C /repo worktree remove --force <dir>)
+    sh("git -C /repo worktree prune")
+    assert sh("git -C /repo worktree add -q --detach %s HEAD" % REPO).returncode == 0, "cannot create the scratch worktree"
 assert sh("git -C %s diff --quiet" % REPO).returncode == 0, "tree not clean"
 FILTER = sys.argv[1] if len(sys.argv) > 1 else ""
 OUT = "MATRIX.md" if not FILTER else "MATRIX_%s.md" % (FILTER if "," not in FILTER else "part")
 rows = []
+# the evidence files describe the unchanged tree: keep them aside while the checks run against seeded trees
+import atexit, shutil
+_ev, _bak = os.path.join(HERE, "evidence"), os.path.join(HERE, "build", "evidence_before_seed_matrix")
+shutil.rmtree(_bak, ignore_errors=True)
+shutil.copytree(_ev, _bak)
+atexit.register(lambda: (shutil.rmtree(_ev, ignore_errors=True), shutil.copytree(_bak, _ev)))
 for sid in sorted(os.listdir(os.path.join(HERE, "seeded"))):
     d = os.path.join(HERE, "seeded", sid)
     if not os.path.isfile(os.path.join(d, "patch.diff")) or not any(f in sid for f in FILTER.split(",")):
